@@ -85,11 +85,9 @@ def var_scan(lang, p, text):
             if len(hits) == 1:
                 head = hits[0][0].strip()
                 head = re.sub(r"(\w+\.)+$", "", head).strip()
-                if head.startswith("final "):
-                    head = head[6:].strip()
-                if head.startswith("static "):
-                    head = head[7:].strip()
-                printed, where = head not in ("var", "def", "final", ""), hits[0][1]
+                # the token in front of the name: `var` / `def` (or only `final`) means no type
+                head = head.split()[-1] if head.split() else ""
+                printed, where = head not in ("var", "def", "final", "static", ""), hits[0][1]
         out.append((v.name, v.var_type is not None, printed, id(v) in glob, where))
     return out
 
@@ -263,13 +261,19 @@ def run(tier, seed, replay=None):
             f.write(o.blob or pickle.dumps(o.obj))
         return path
 
+    queue = []
+
+    def defer(prio, *a, **k):
+        """violations are emitted at the end, failing inputs (implementation findings) first"""
+        queue.append((prio, len(queue), a, k))
+
     stats = dict(compared=0, mismatches=0, wf=0, clean=0, in_hypotheses=0, balanced_real_text=0, inventory_ok=0)
     fstats = dict(compared=0, mismatches=0, in_hypotheses=0, outside_hypotheses=0)
     bal_other = {}
     for name, _ in files:
         rc, out = coq_res[name]
         if rc != 0:
-            rep.violation("case-file", "case file %s did not evaluate: %s" % (name, out[-400:]), dict(broken=name, log=out[-3000:]),
+            defer(5, "case-file", "case file %s did not evaluate: %s" % (name, out[-400:]), dict(broken=name, log=out[-3000:]),
                           no_input=True)
             continue
         vals = C.parse_eval_outputs(out)
@@ -281,7 +285,7 @@ def run(tier, seed, replay=None):
                 if all(b):
                     st["balanced"] += 1
                 else:
-                    rep.violation("balance", "%s %s seed %s [exploration, no model]: brackets of the real text are not balanced "
+                    defer(1, "balance", "%s %s seed %s [exploration, no model]: brackets of the real text are not balanced "
                                   "((), {}, []) = %s" % (o.lang, o.stage, o.seed, b),
                                   dict(lang=o.lang, seed=o.seed, stage=o.stage, program_bin=save(o), shape="unbalanced-text"))
                 continue
@@ -291,7 +295,7 @@ def run(tier, seed, replay=None):
             S["compared"] += 1
             if not eq:
                 S["mismatches"] += 1
-                rep.violation("correspondence", "kotlin %s seed %s: the text of the real KotlinTranslator is not the model's print_program"
+                defer(3, "correspondence", "kotlin %s seed %s: the text of the real KotlinTranslator is not the model's print_program"
                               % (o.stage, o.seed),
                               dict(lang="kotlin", seed=o.seed, stage=o.stage, program_bin=save(o),
                                    broken="correspondence IR.PrintKotlin.print_program vs KotlinTranslator"), no_input=True)
@@ -299,7 +303,7 @@ def run(tier, seed, replay=None):
             if directed:
                 fstats["in_hypotheses" if (wf and clean) else "outside_hypotheses"] += 1
                 if wf and clean and not (bp and bb and inv):
-                    rep.violation("theorem-vs-evaluation", "directed tree %s: within the hypotheses but (balanced(), balanced{}, inventory) = %s"
+                    defer(4, "theorem-vs-evaluation", "directed tree %s: within the hypotheses but (balanced(), balanced{}, inventory) = %s"
                                   % (o.seed, (bp, bb, inv)), dict(seed=o.seed, value=b, program_bin=save(o)), no_input=True)
                 continue
             stats["wf"] += wf
@@ -308,14 +312,14 @@ def run(tier, seed, replay=None):
             stats["balanced_real_text"] += (bp and bb)
             stats["inventory_ok"] += inv
             if not wf:
-                rep.violation("hypothesis", "kotlin %s seed %s: the program does not have the node shape the theorems assume (wf = false)"
+                defer(2, "hypothesis", "kotlin %s seed %s: the program does not have the node shape the theorems assume (wf = false)"
                               % (o.stage, o.seed), dict(lang="kotlin", seed=o.seed, stage=o.stage, program_bin=save(o), shape="not-wf"))
             if not (bp and bb):
-                rep.violation("balance", "kotlin %s seed %s: brackets of the real text are not balanced: () %s, {} %s (clean = %s)"
+                defer(1, "balance", "kotlin %s seed %s: brackets of the real text are not balanced: () %s, {} %s (clean = %s)"
                               % (o.stage, o.seed, bp, bb, clean),
                               dict(lang="kotlin", seed=o.seed, stage=o.stage, program_bin=save(o), shape="unbalanced-text"))
             if not inv:
-                rep.violation("inventory", "kotlin %s seed %s: the marked pieces of the text are not the inventory of the program"
+                defer(1, "inventory", "kotlin %s seed %s: the marked pieces of the text are not the inventory of the program"
                               % (o.stage, o.seed), dict(lang="kotlin", seed=o.seed, stage=o.stage, program_bin=save(o), shape="inventory"))
     seen = set()
     for o, name, where, kind in ann_viol:
@@ -326,14 +330,16 @@ def run(tier, seed, replay=None):
         n_same = sum(1 for x in ann_viol if (x[0].lang, x[3]) == key)
         what = ("the program carries no declared type for the variable but the text prints one" if kind == "erased-type-printed"
                 else "the program carries a declared type for the variable but the text prints none")
-        rep.violation("%s-%s" % (o.lang, kind), "%s %s seed %s%s: variable %s: %s: %r (%d such variables in this run)"
+        defer(0, "%s-%s" % (o.lang, kind), "%s %s seed %s%s: variable %s: %s: %r (%d such variables in this run)"
                       % (o.lang, o.stage, o.seed, "" if o.lang == "kotlin" else " [scanner, no model]", name, what, (where or "").strip()[:120],
                          n_same),
                       dict(lang=o.lang, seed=o.seed, stage=o.stage, variable=name, line=where, program_bin=save(o),
                            shape="%s-%s" % (o.lang, kind), count=n_same))
     for o, probs in inv_viol[:5]:
-        rep.violation("inventory", "%s %s seed %s [scanner]: %s" % (o.lang, o.stage, o.seed, "; ".join(probs[:3])),
+        defer(1, "inventory", "%s %s seed %s [scanner]: %s" % (o.lang, o.stage, o.seed, "; ".join(probs[:3])),
                       dict(lang=o.lang, seed=o.seed, stage=o.stage, problems=probs[:10], program_bin=save(o), shape="%s-inventory-scan" % o.lang))
+    for _, _, a, k in sorted(queue, key=lambda q: (q[0], q[1])):
+        rep.violation(*a, **k)
     C.clean_cases("c12")
     if not proof_ok and not rep.violations:
         rep.violation("proof", rep.proof_broken, dict(broken=rep.proof_broken), no_input=True)
